@@ -34,7 +34,9 @@ namespace {
 enum Want { W_NONE, W_LOCK, W_JOIN, W_SLEEP, W_YIELD, W_START };
 struct Th { int id; pthread_t pt; int baton; Want want; const void *lock; int join_id; long long wake; bool done, waiting; void *(*fn)(void *); void *arg; int last_tag; int reads; unsigned long reads_progress; };
 const int MAXT = 24;
-Th th[MAXT]; int nth = 0; bool active = false; long long vnow = 1700000000LL * 1000000000LL;
+const long long VNOW0 = 1700000000LL * 1000000000LL;
+Th th[MAXT]; int nth = 0; bool active = false; long long vnow = VNOW0;
+std::string tracebuf;	// trace_fd == -2: the trace is kept in memory (in-process executions, see explore.hpp)
 std::map<const void *, int> owner;
 std::vector<int> prefix; size_t step = 0; int trace_fd = -1; unsigned long progress = 0; unsigned long seen_progress[MAXT];
 long max_steps = 200000;
@@ -45,7 +47,7 @@ uint64_t (*state_hash_fn)() = nullptr;
 
 void fwait(int *a) { while (__atomic_load_n(a, __ATOMIC_ACQUIRE) == 0) syscall(SYS_futex, a, FUTEX_WAIT, 0, 0, 0, 0); __atomic_store_n(a, 0, __ATOMIC_RELEASE); }
 void fwake(int *a) { __atomic_store_n(a, 1, __ATOMIC_RELEASE); syscall(SYS_futex, a, FUTEX_WAKE, 1, 0, 0, 0); }
-void tr(const char *s) { if (trace_fd >= 0) { ssize_t r = syscall(SYS_write, trace_fd, s, strlen(s)); (void)r; } }
+void tr(const char *s) { if (trace_fd == -2) tracebuf.append(s); else if (trace_fd >= 0) { ssize_t r = syscall(SYS_write, trace_fd, s, strlen(s)); (void)r; } }
 bool enabled(Th& t)
 {
 	if (t.done) return false;
@@ -57,7 +59,7 @@ bool enabled(Th& t)
 	default: return true;
 	}
 }
-void die(const char *m) { char b[64]; snprintf(b, sizeof b, "E %s\n", m); tr(b); _exit(3); }
+void die(const char *m) { char b[64]; snprintf(b, sizeof b, "E %s\n", m); tr(b); if (trace_fd == -2) { ssize_t r = syscall(SYS_write, 2, b, strlen(b)); (void)r; } _exit(3); }
 
 // called by the running thread at a point after publishing its want; picks the next thread and hands over
 void reschedule()
@@ -75,7 +77,7 @@ void reschedule()
 		size_t c = 0;
 		if (step < prefix.size()) { c = prefix[step]; if ((int)c >= ne) die("DIVERGE"); }
 		if ((long)step > max_steps) die("STEPLIMIT");
-		if (trace_fd >= 0) {
+		if (trace_fd >= 0 || trace_fd == -2) {
 			char b[160]; int n = snprintf(b, sizeof b, "P %d %d %d %zu %d", ne, (int)(en[0] == my_id), my_id, c, me.last_tag);
 			if (state_hash_fn && ne > 1) n += snprintf(b + n, sizeof b - n, " %llx", (unsigned long long)state_hash_fn());
 			b[n++] = '\n'; b[n] = 0; tr(b);
@@ -100,10 +102,12 @@ inline bool on() { return active && my_id >= 0; }
 extern "C" {
 void vs_begin(const int *pre, int n, int tfd)
 {
-	prefix.assign(pre, pre + n); trace_fd = tfd; step = 0; nth = 1; owner.clear(); progress = 0;
-	memset(th, 0, sizeof th); th[0].id = 0; th[0].pt = pthread_self(); my_id = 0; active = true;
+	prefix.assign(pre, pre + n); trace_fd = tfd; step = 0; nth = 1; owner.clear(); progress = 0; vnow = VNOW0; tracebuf.clear();
+	memset(th, 0, sizeof th); memset(seen_progress, 0, sizeof seen_progress); th[0].id = 0; th[0].pt = pthread_self(); my_id = 0; active = true;
 }
 void vs_end() { active = false; tr("E OK\n"); }
+const char *vs_trace_buf(size_t *len) { *len = tracebuf.size(); return tracebuf.data(); }
+int vs_leftover() { int k = 0; for (int i = 1; i < nth; i++) if (!th[i].done) ++k; return k; }
 void vs_point(int tag) { if (on()) { th[my_id].last_tag = tag; ++progress; th[my_id].reads = 0; point(W_NONE); } }
 // read-only point: does not count as progress; a thread that keeps reading without anybody changing shared state is
 // spinning (FastFlow's retry loops have no yield) and is parked until some other thread makes progress
